@@ -4,9 +4,12 @@ over an abstract context `Ctx G` (the operations of `ec_o` + belt that the bign 
 No Mathlib: this file is linked into the native driver `drv_c02`.
 
 Conventions
-* octet strings = `List UInt8`; numbers are little-endian (`wwFrom`/`wwTo`/`qrFrom`/`qrTo` of a
-  prime field in the "plain" representation used by gfpCreate for these moduli are the identity on
-  the value, so the model keeps VALUES in `Nat`);
+* octet strings = `List UInt8`; numbers are little-endian.  The model keeps field elements as VALUES in
+  `Nat`: `qrFrom`/`qrTo` convert between octets and the internal representation of the field (plain for
+  the Crandall moduli 2^k - c of the standard curves, Montgomery otherwise), so every place where the
+  code reads or writes coordinates with `qrFrom`/`qrTo` is `leNat`/`natLE` of the value here — including
+  the comparison in bignKeypairVal (after df47511 it exports Q with `qrTo`; before, `wwTo` exported the
+  internal representation, which differs from the value for non-Crandall moduli);
 * every function takes the C buffers with their exact lengths (`no = l/4` octets etc.): lengths are
   preconditions of the C API and are enforced by the harness/driver, not by the model;
 * error codes AND their order follow the C text line by line; the C checks that cannot fail through
